@@ -11,6 +11,27 @@ TRUSTED = e2e.TRUSTED + ["translator/py2coq_vinfo.py: a pandas DataFrame as the 
 ASSUMPTIONS = e2e.ASSUMPTIONS + ["grid sizes are generated pairwise different so that any transposition of axes changes the shape or the content"]
 
 
+def fixed_variable_info_cases():
+    """declarations the generator does not produce: an auxiliary state (read by its own transition only), a restricted continuous-free
+    mix declared in an order that differs from the canonical one in every group"""
+    from fractions import Fraction as F
+    import gen_models as G
+    from core import q
+    X = G.X
+    m = {"n_periods": 2,
+         "states": [["w", {"lin": [F(0), F(4), 3]}], ["aux", {"d": 2}], ["h", {"d": 3}], ["k", {"d": 2}]],
+         "choices": [["cons", {"lin": [F(0), F(2), 3]}], ["work", {"d": 2}], ["d", {"d": 3}]],
+         "functions": [{"name": "utility", "args": ["w", "h", "k", "cons", "work", "d"],
+                        "body": ["+", ["+", X.v("w"), X.v("h")], ["+", ["+", X.v("k"), X.v("cons")], ["+", X.v("work"), X.v("d")]]], "stochastic": False},
+                       {"name": "next_w", "args": ["w"], "body": X.v("w"), "stochastic": False},
+                       {"name": "next_aux", "args": ["aux"], "body": X.v("aux"), "stochastic": False},
+                       {"name": "next_h", "args": ["h"], "body": X.v("h"), "stochastic": False},
+                       {"name": "next_k", "args": ["k"], "body": X.v("k"), "stochastic": False},
+                       {"name": "ok_filter", "args": ["h", "d"], "body": ["<=", X.v("d"), X.v("h")], "stochastic": False}]}
+    p = {"beta": F(1), "fpar": {f["name"]: {} for f in m["functions"]}, "shocks": {}}
+    return [{"fn": "variable_info", "model": G.model_json(m, q), "params": G.params_json(p, q), "py": G.render_python(m)}]
+
+
 def fam_variable_info(rng, n):
     fam = Family("variable_info_vs_regenerated",
                  "random whole models (shuffled declaration order of states, choices and functions; filters, stochastic and auxiliary "
@@ -21,7 +42,7 @@ def fam_variable_info(rng, n):
     feats = [{"period_filter", "two_filters"}, {"filter"}, set(), {"filter", "stochastic"}, {"mixed_discrete_choices", "filter"},
              {"two_cont_choices"}, {"period_filter", "stochastic"}]
     cases = e2e.gen_cases(rng, n, fn="variable_info", features=feats)
-    wc = [e2e.wire(c) for c in cases]
+    wc = [e2e.wire(c) for c in cases] + fixed_variable_info_cases()
     ires = run_impl(wc)
     mc, keep = [], []
     for w, i in zip(wc, ires):
